@@ -223,3 +223,37 @@ Fixpoint fdrive (fuel : nat) (s : fsys) (t : tid) : option fsys :=
   | O => None
   | S f => match fstep s t 0 with SOk s' => fdrive f s' t | SNoop => Some s | _ => None end
   end.
+
+(** Sequential specification of the file store: the operation run alone, atomically. State: what
+    each mailbox lists (a missing index is an empty mailbox) and the id generator. *)
+Definition fspec := (list (mbname * list msg) * N)%type.
+Definition smsgs (mb : mbname) (S : fspec) : list msg := match aget mb (fst S) with Some l => l | None => [] end.
+
+Definition fseq_exec (S : fspec) (o : op) : fspec * res :=
+  match o with
+  | OAdd mb tag size =>
+      let id := snd S + 1 in
+      ((aset mb (smsgs mb S ++ [mkMsg tag id size false]) (fst S), id), RId id)
+  | OGet mb id => (S, box_get id (mkBox 0 0 (smsgs mb S)))
+  | OLatest mb => (S, box_latest (mkBox 0 0 (smsgs mb S)))
+  | OList mb => (S, box_list (mkBox 0 0 (smsgs mb S)))
+  | OSeen mb id =>
+      match find_msg id (smsgs mb S) with
+      | Some _ => ((aset mb (mark_seen id (smsgs mb S)) (fst S), snd S), ROk)
+      | None => (S, RNotExist)
+      end
+  | ORemove mb id =>
+      match find_msg id (smsgs mb S) with
+      | Some _ => ((aset mb (del_msg id (smsgs mb S)) (fst S), snd S), ROk)
+      | None => (S, RNotExist)
+      end
+  | OPurge mb => ((aset mb [] (fst S), snd S), ROk)
+  | OVisit => (S, RVisit (map (fun kl => (fst kl, view_of (snd kl))) (filter (fun kl => negb (match snd kl with [] => true | _ => false end)) (fst S))))
+  end.
+
+Fixpoint fseq_run (S : fspec) (l : list op) : fspec * list res :=
+  match l with
+  | [] => (S, [])
+  | o :: l' => let '(S1, r) := fseq_exec S o in
+               let '(S2, rs) := fseq_run S1 l' in (S2, r :: rs)
+  end.
